@@ -212,6 +212,16 @@ def build_alphabet(lab, ents, root_of):
             add("exists:%s:%d" % (fd, i), {"f": "find", "finder": fd, "search": s, "mode": "exists"}, fs=fs)
         add("partial_keep:%s" % fd, {"f": "find_partial", "finder": fd, "search": searches[2], "k": 2, "keep": True, "as_set": fs}, fs=fs)
         add("partial_drop:%s" % fd, {"f": "find_partial", "finder": fd, "search": searches[0], "k": 1, "keep": False, "as_set": fs}, fs=fs)
+    # levels answered from constants only: the ORDER of the answer is deterministic (typed searches in order, constants in order)
+    for i, sc in enumerate([segs[0] + "/*", "*/*", segs[0] + "/*/*"]):
+        add("find_const_ordered:%d" % i, {"f": "find", "finder": "all", "search": sc}, fs=False)
+        add("find_one_const_ordered:%d" % i, {"f": "find", "finder": "all", "search": sc, "mode": "one"}, fs=False)
+    # a NEW list Finder that builds the hierarchy of a leaf-only list itself, asked more than once per process
+    for i, sc in enumerate([searches[0], "/".join(segs[:2]) + "/*", "/".join(segs[:3]) + "/**"]):
+        add("find_extrapolated_list:%d" % i, {"f": "find", "finder": "list_extrap_new", "search": sc}, group="find_extrapolated_list:%d" % i)
+        add("find_extrapolated_list_second:%d" % i, {"f": "find", "finder": "list_extrap_new", "search": sc,
+                                                      "pre": [{"f": "find", "finder": "list_extrap_new", "search": "/".join(segs[:2]) + "/*"}]},
+            group="find_extrapolated_list:%d" % i)
     add("find_default_paths", {"f": "find", "finder": "paths", "search": searches[0], "as_set": True}, group="find:paths:%s:0" % dflt, fs=True)
     for i, e in enumerate(typed[:3]):
         add("sid_exists:%d" % i, {"f": "sid_op", "sid": e, "op": "exists"}, fs=True)
@@ -306,7 +316,7 @@ def worker(args):
 
     env = dict(os.environ)
     max_size = args.get("max_size") or (args.get("replay") or {}).get("max_size") or 0
-    srv = Server(env, {"max_size": max_size, "ctx": {"list": shuffled(sorted(lab.exists[lab.default_config]))}})
+    srv = Server(env, {"max_size": max_size, "ctx": {"list": shuffled(sorted(lab.exists[lab.default_config])), "leaves": shuffled(sorted(ents))}})
     rng = random.Random(args.get("seed", 0))
     out_fresh = {}
     try:
@@ -359,7 +369,7 @@ def worker(args):
         for n in sample:
             code = ("import json,sys\nsys.path.append(%r)\nimport spil\nfrom lib import c13calls\nc13calls.CTX.update(%r)\n"
                     "print('RESULT'+json.dumps(c13calls.exec_call(%r), default=str))" % (
-                        os.path.dirname(os.path.dirname(os.path.abspath(__file__))), {"list": shuffled(sorted(lab.exists[lab.default_config]))}, byname[n]["spec"]))
+                        os.path.dirname(os.path.dirname(os.path.abspath(__file__))), {"list": shuffled(sorted(lab.exists[lab.default_config])), "leaves": shuffled(sorted(ents))}, byname[n]["spec"]))
             p = subprocess.run([sys.executable, "-c", code], stdout=subprocess.PIPE, stderr=subprocess.PIPE, timeout=120, env=env)
             lines = [l for l in p.stdout.decode().splitlines() if l.startswith("RESULT")]
             if not lines:
